@@ -427,7 +427,7 @@ class LabelledPointUndirectedGraph(PointUndirectedGraph):
         # Make it easier to use by accepting a single string as well as a list
         if isinstance(labels, str):
             labels = [labels]
-        labels_to_keep = list(set(self.labels).difference(labels))
+        labels_to_keep = [l for l in self.labels if l not in labels]
         return self._new_group_with_only_labels(labels_to_keep)
 
     def _verify_all_labels_masked(self):
